@@ -33,20 +33,31 @@ example : check1 "/w".toList "sub/".toList "/w/sub/f".toList = true := by decide
 example : check1 "/w".toList "sub".toList "../f".toList = false := by decide
 example : ¬ (comps "/a/b".toList <+: comps "/a/bc/f".toList) := by decide
 
-/-- **C10_load_base_nonempty**: for every spelling of the model path (absolute, relative, "./x",
-bare name, trailing separators, empty) `load` (as fixed for D23, _io.py:34-40) assigns a non-empty
-base directory, so the containment checks are never disabled for a loaded model. -/
-theorem C10_load_base_nonempty (modelPath : Str) : loadBase modelPath ≠ [] := by
-  unfold loadBase
-  simp only
-  split
-  · simp [DOT]
-  · assumption
+theorem isabs_normpath_abs (p : Str) (h : isabs p = true) : isabs (normpath p) = true := by
+  rw [normpath_abs p h]
+  have := splitroot_abs p h
+  cases hn : (splitroot p).1 with
+  | zero => exact absurd hn this
+  | succ n => simp [List.replicate_succ, isabs]
 
-/-- D23 on the unfixed derivation: a bare file name gives the empty base directory. -/
+/-- **C10_load_base_nonempty**: for every spelling of the model path (absolute, relative, "./x",
+bare name, trailing separators, empty) and every load-time working directory, the base directory
+`load()` assigns (_io.py:37) is non-empty, so the containment checks are never disabled for a
+loaded model, and absolute, so a later chdir cannot change what it names. -/
+theorem C10_load_base_nonempty (cwdS modelPath : Str) (hcwd : isabs cwdS = true) :
+    loadBase cwdS modelPath ≠ [] ∧ isabs (loadBase cwdS modelPath) = true := by
+  have h : isabs (loadBase cwdS modelPath) = true := by
+    unfold loadBase loadBaseAbs abspath
+    exact isabs_normpath_abs _ (isabs_abspath_arg cwdS _ hcwd)
+  refine ⟨?_, h⟩
+  intro e
+  rw [e] at h
+  simp [isabs] at h
+
+/-- D23 on the derivation before the fix: a bare file name gives the empty base directory. -/
 example : loadBaseUnfixed "model.onnx".toList = [] := by decide
-example : loadBase "model.onnx".toList = DOT := by decide
-example : loadBase "dir/model.onnx".toList = "dir".toList := by decide
+example : loadBase "/w".toList "model.onnx".toList = "/w".toList := by decide
+example : loadBase "/w".toList "dir/model.onnx".toList = "/w/dir".toList := by decide
 
 /-- **C10_real**: when check 2 (_core.py:802-810) passes, the components of
 `realpath(join(base, loc))` extend those of `realpath(base)` component-wise, and both consist of
@@ -270,41 +281,47 @@ theorem C10_open_safe (fs : FS) (kfuel fuel : Nat) (cwd : Loc) (hcwd : RealDir f
 
 /-- **C10_load_base_is_model_dir**: for every spelling of the model path `p` whose last piece is a
 file name (bare name, relative, absolute, "./x", repeated or leading separators, through symbolic
-links), if the kernel opens `p` (resolves it to `ml`), then the base directory `load()` assigns
-(_io.py:34-40 as fixed for D23) resolves to a directory `d`, and `d` is exactly the directory in
-which the kernel looked up the file name: the model's directory. -/
-theorem C10_load_base_is_model_dir (fs : FS) (f : Nat) (cwd : Loc) (p : Str) (ml : Loc)
-    (hn : Clean (tailPart p)) (h : kresolve fs f cwd p true = some ml) :
-    ∃ d, kresolve fs f cwd (loadBase p) true = some d ∧ fs.get d = some Node.dir ∧
-      walk fs f d [tailPart p] true = some ml :=
-  load_base_is_model_dir fs f cwd p ml hn h
+links, with ".." after a symbolic link), if the kernel opens `p` from the load-time directory `cwd`
+(resolves it to `ml`), then the base directory `join(getcwd(), dirname(p) or ".")` resolves, from
+ANY later working directory `cwd'`, to a directory `d`, and `d` is exactly the directory in which
+the kernel looked up the file name at load time: the model's directory. -/
+theorem C10_load_base_is_model_dir (fs : FS) (f : Nat) (cwd cwd' : Loc) (hcwd : RealDir fs cwd)
+    (p : Str) (ml : Loc) (hn : Clean (tailPart p)) (h : kresolve fs f cwd p true = some ml) :
+    ∃ d, kresolve fs f cwd' (loadBaseJoin (render cwd) p) true = some d ∧
+      fs.get d = some Node.dir ∧ walk fs f d [tailPart p] true = some ml := by
+  obtain ⟨d, h1, h2, h3⟩ := load_base_is_model_dir fs f cwd p ml hn h
+  refine ⟨d, ?_, h2, h3⟩
+  unfold loadBaseJoin
+  rw [kresolve_join_cwd fs f cwd cwd' hcwd _ (loadDir_ne_nil p)]
+  exact h1
 
-/-- **C10_load_read_safe**: end to end.  A model opened from `p` (any spelling) gets the base
-directory `loadBase p`; every read of one of its external tensors that returns bytes returns the
-requested slice of a regular file with at most one link whose resolved location `l` lies below the
-model's directory `d`. -/
-theorem C10_load_read_safe (fs : FS) (kfuel fuel : Nat) (cwd : Loc) (hcwd : RealDir fs cwd)
-    (hfuel : kfuel ≤ fuel) (p : Str) (ml : Loc) (hn : Clean (tailPart p))
+/-- **C10_load_read_safe**: end to end, with a chdir between load and read.  A model opened from
+`p` (any spelling) in the working directory `cwd` gets the base directory
+`join(getcwd(), dirname(p) or ".")`; every later read of one of its external tensors, made from
+any working directory `cwd'`, that returns bytes returns the requested slice of a regular file
+with at most one link whose resolved location `l` lies below the model's directory `d`. -/
+theorem C10_load_read_safe (fs : FS) (kfuel fuel : Nat) (cwd cwd' : Loc) (hcwd : RealDir fs cwd)
+    (hcwd' : RealDir fs cwd') (hfuel : kfuel ≤ fuel) (p : Str) (ml : Loc) (hn : Clean (tailPart p))
     (hopen : kresolve fs kfuel cwd p true = some ml)
     (loc : Str) (offset length : Nat) (ep : EntryPoint) (bytes : List Nat)
-    (h : (read fs kfuel fuel (render cwd) cwd (loadBase p) loc offset length ep).1 =
+    (h : (read fs kfuel fuel (render cwd') cwd' (loadBaseJoin (render cwd) p) loc offset length ep).1 =
       ReadResult.ok bytes) :
-    ∃ d l i, kresolve fs kfuel cwd (loadBase p) true = some d ∧ fs.get d = some Node.dir ∧
-      walk fs kfuel d [tailPart p] true = some ml ∧
-      kresolve fs kfuel cwd (tensorPath (loadBase p) loc) true = some l ∧ d <+: l ∧
+    ∃ d l i, kresolve fs kfuel cwd' (loadBaseJoin (render cwd) p) true = some d ∧
+      fs.get d = some Node.dir ∧ walk fs kfuel d [tailPart p] true = some ml ∧
+      kresolve fs kfuel cwd' (tensorPath (loadBaseJoin (render cwd) p) loc) true = some l ∧ d <+: l ∧
       fs.get l = some (Node.file i) ∧ fs.nlink i ≤ 1 ∧
       bytes = ((fs.data i).drop offset).take length := by
-  obtain ⟨d, hd1, hd2, hd3⟩ := load_base_is_model_dir fs kfuel cwd p ml hn hopen
+  obtain ⟨d, hd1, hd2, hd3⟩ := C10_load_base_is_model_dir fs kfuel cwd cwd' hcwd p ml hn hopen
+  have hne : loadBaseJoin (render cwd) p ≠ [] := pjoin_ne_nil _ _ (loadDir_ne_nil p)
   obtain ⟨i, hbytes, l, hk, hg, hnl, _, hbl, _, _⟩ :=
-    C10_read_safe fs kfuel fuel cwd hcwd hfuel (loadBase p) loc offset length ep bytes
-      (C10_load_base_nonempty p) h
+    C10_read_safe fs kfuel fuel cwd' hcwd' hfuel (loadBaseJoin (render cwd) p) loc offset length ep bytes
+      hne h
   exact ⟨d, l, i, hd1, hd2, hd3, hk, hbl d hd1, hg, hnl, hbytes⟩
 
-example : tailPart "model.onnx".toList = "model.onnx".toList ∧ loadBase "model.onnx".toList = DOT := by
+example : tailPart "a//m.onnx".toList = "m.onnx".toList ∧ loadDir "a//m.onnx".toList = "a".toList := by
   decide
-example : tailPart "a//m.onnx".toList = "m.onnx".toList ∧ loadBase "a//m.onnx".toList = "a".toList := by
-  decide
-example : loadBase "//m.onnx".toList = "//".toList := by decide
+example : loadBaseJoin "/w".toList "x/../m.onnx".toList = "/w/x/..".toList := by decide
+example : loadBaseAbs "/w".toList "x/../m.onnx".toList = "/w".toList := by decide
 
 end IrVerif.Path
 
@@ -774,26 +791,51 @@ theorem reachGraphs_sub : ∀ (gs : List GTree) (x : String), x ∈ reachGraphs 
       · exact Or.inr (Or.inr h')
 end
 
-/-- **C10_load_all_positions**: the walker behind `set_base_dir` (`_all_tensors` with attributes,
-over `RecursiveGraphIterator`) reaches EVERY tensor position of the model: initializers and
-TENSOR/TENSORS attribute tensors of the main graph and of every graph nested at any depth through
-GRAPH/GRAPHS attributes.  Hence after `load(p)` every external tensor of the model has the base
-directory `loadBase p`, which is never empty (C10_load_base_nonempty) and is the model's directory
-(C10_load_base_is_model_dir): the assignment `assign` made by `set_base_dir` covers all of
-`reachGraph g`. -/
-theorem C10_load_all_positions (g : GTree) (p : Str) (x : String) (hx : x ∈ reachGraph g) :
-    x ∈ allTensors g ∧
-    (∀ (baseOf : String → Str), (∀ y ∈ allTensors g, baseOf y = loadBase p) →
-      baseOf x = loadBase p ∧ baseOf x ≠ []) := by
-  have hmem : x ∈ allTensors g := by
-    unfold allTensors
-    rcases reachGraph_sub g x hx with h | h
-    · exact List.mem_append.mpr (Or.inl h)
-    · exact List.mem_append.mpr (Or.inr h)
+theorem reachFuncs_sub : ∀ (fs : List GTree) (x : String), x ∈ reachFuncs fs → x ∈ funcsTensors fs
+  | [], x, h => by simp [reachFuncs] at h
+  | f :: fs, x, h => by
+    simp only [reachFuncs, List.mem_append] at h
+    simp only [funcsTensors, List.mem_append]
+    rcases h with h | h
+    · left
+      unfold allTensors
+      rcases reachGraph_sub f x h with h' | h'
+      · exact List.mem_append.mpr (Or.inl h')
+      · exact List.mem_append.mpr (Or.inr h')
+    · exact Or.inr (reachFuncs_sub fs x h)
+
+/-- **C10_load_all_positions**: what `load()` assigns the base directory to (`set_base_dir` on the
+main graph and on the body of every model-local function; the walker `_all_tensors` with
+attributes over `RecursiveGraphIterator`) covers EVERY tensor position of the model: initializers
+and TENSOR/TENSORS attribute tensors of the main graph, of every function body and of every graph
+nested in them at any depth through GRAPH/GRAPHS attributes.  Hence after `load(p)` every external
+tensor of the model has the base directory `loadBase cwd p`, which is never empty and absolute
+(C10_load_base_nonempty). -/
+theorem C10_load_all_positions (main : GTree) (funcs : List GTree) (p : Str) (x : String)
+    (hx : x ∈ reachModel main funcs) :
+    x ∈ loadTensors main funcs ∧
+    (∀ (cwdS : Str), isabs cwdS = true → ∀ (baseOf : String → Str),
+      (∀ y ∈ loadTensors main funcs, baseOf y = loadBase cwdS p) →
+      baseOf x = loadBase cwdS p ∧ baseOf x ≠ []) := by
+  have hmem : x ∈ loadTensors main funcs := by
+    unfold loadTensors
+    unfold reachModel at hx
+    rcases List.mem_append.mp hx with h | h
+    · apply List.mem_append.mpr; left
+      unfold allTensors
+      rcases reachGraph_sub main x h with h' | h'
+      · exact List.mem_append.mpr (Or.inl h')
+      · exact List.mem_append.mpr (Or.inr h')
+    · exact List.mem_append.mpr (Or.inr (reachFuncs_sub funcs x h))
   refine ⟨hmem, ?_⟩
-  intro baseOf hset
+  intro cwdS hc baseOf hset
   have := hset x hmem
-  exact ⟨this, by rw [this]; exact C10_load_base_nonempty p⟩
+  exact ⟨this, by rw [this]; exact (C10_load_base_nonempty cwdS p hc).1⟩
+
+/-- before D180 only the main graph was walked: a tensor attribute in a function body was missed -/
+example : "f_attr" ∈ reachModel (GTree.mk [] []) [GTree.mk [] [NTree.mk ["f_attr"] []]] ∧
+    "f_attr" ∉ allTensors (GTree.mk [] []) ∧
+    "f_attr" ∈ loadTensors (GTree.mk [] []) [GTree.mk [] [NTree.mk ["f_attr"] []]] := by decide
 
 /-- the seeded shallow walker (`for node in graph`) misses a tensor attribute of a node inside an
 If branch and an initializer two levels down: the theorem is about the recursive walker -/
